@@ -107,6 +107,7 @@ Theorem fault_free_round_is_accepted : forall (l : list ((Z * Z) * smsg)) (vs : 
   Forall (fun x => HE.in_slot vc h (fst x) /\ In (snd x) (all_broadcasts qc h ld)) l ->
   Forall (eq V.Accept) (snd (V.run vc vs (map (fun x => (fst x, envelope_of (snd x))) l))).
 Proof.
+  clear Hnd Hq1 Hq2 Hvc.
   intros l vs Hfresh Hndl Hall.
   assert (Hh64 : h < 18446744073709551616) by lia.
   pose proof (leader_is qc sh h ld Hcomm Hld Hh64) as Hleader.
